@@ -23,15 +23,17 @@ def gen_tree(rng, max_depth=4, root=None, with_init=True, nonpy=True):
     root = root or rng.choice(["proj", "p", "pr"])
     dirs = [(root,)]
     files = {}
+    # directory names that repeat or extend the root directory's own name (proj/proj, proj/proj_core)
+    pool = POOL + [root, root + "_core", root + "x"]
     for _ in range(rng.randint(1, 5)):
         p = rng.choice(dirs)
         if len(p) < max_depth:
-            d = p + (rng.choice(POOL),)
+            d = p + (rng.choice(pool),)
             if d not in dirs and d not in files:
                 dirs.append(d)
     for d in dirs:
         for _ in range(rng.randint(0, 3)):
-            f = d + (rng.choice(POOL),)
+            f = d + (rng.choice(pool),)
             if f not in dirs and f not in files:
                 files[f] = {"py": True, "body": []}
         if with_init and rng.random() < 0.5:
